@@ -198,7 +198,7 @@ func scenarios() []*program {
 // Running one program
 
 func runProgram(p *program, recorded bool) *history {
-	t := nbtns.NewNetBIOSNameServer(true)
+	t := nbtns.NewNetBIOSNameServer(p.ID%2 == 0)
 	h := &history{P: p}
 	var clk atomic.Int64
 	start := make(chan struct{})
